@@ -45,8 +45,8 @@ META = dict(
           "ref_neighborhood", "ref_refined", "inv_parent_of_children", "inv_partition",
           "inv_coord_roundtrip", "inv_child_in_parent_cell", "inv_volume", "flat_bijection",
           "unbatched_calls"],
-    quick=dict(cases=140, workers=8, budget_s=75),
-    thorough=dict(cases=3000, workers=16, budget_s=780),
+    quick=dict(cases=100, workers=6, budget_s=60),
+    thorough=dict(cases=2500, workers=16, budget_s=780),
     design_ref="DESIGN.md §5 C31",
     level_text=("every index of every level of ~150 (quick) generated grids from all grid families is "
                 "swept; exhaustive per generated grid, exploration over grid configurations"),
@@ -692,7 +692,7 @@ def gen_base(ck, rng, depth, cap, kinds):
 
 FAMILIES = (["grid"] * 6 + ["open"] * 7 + ["healpix"] * 2 + ["simpleopen"] * 3 + ["log"] * 3
             + ["brokenlog"] * 1 + ["mgrid"] * 5 + ["hplogr", "hpbrokenlogr"] + ["flat"] * 6
-            + ["sparse"] * 4)
+            + ["sparse"] * 3)
 # NIFTy's HEALPix maps (lax.cond under an eager vmap) and the broken-log map (jnp.piecewise with
 # fresh lambdas) are re-compiled by JAX on *every call* (~0.5 s each): grids containing them are
 # generated less often, kept within one batch chunk, and get fewer unbatched calls.
@@ -748,6 +748,8 @@ def gen_grid(ck, rng):
         return fam, g, Prod([hp, rr], radial=True), d
     if fam == "flat":
         ordering = pick(rng, ["serial", "nest", "nest"])
+        if ordering == "nest":
+            depth = int(pick(rng, [1, 2, 2, 3]))     # nested numbering needs >= 2 levels to matter
         kinds = ["grid", "grid", "healpix", "mgrid"] + (["open", "simpleopen"] if ordering == "serial"
                                                         else [])
         sub = pick(rng, kinds)
@@ -760,8 +762,9 @@ def gen_grid(ck, rng):
         g = G.FlatGrid(base, ordering=ordering)
         return fam, g, Flat(prod, ordering), dict(t="FlatGrid", ordering=ordering, grid=bd)
     if fam == "sparse":
-        sub = pick(rng, ["grid", "grid", "healpix", "mgrid"])
-        cap2 = min(cap, 3000)
+        sub = pick(rng, ["grid", "grid", "grid", "healpix", "mgrid"])
+        cap2 = min(cap, ck.pick(600, 3000))
+        depth = min(depth, 2)
         if sub == "mgrid":
             base, prod, bd = gen_product(ck, rng, depth, cap2, ["grid", "grid", "healpix"])
         else:
@@ -834,7 +837,8 @@ def case(ck, i):
     composite = fam in ("mgrid", "hplogr", "hpbrokenlogr", "flat", "sparse")
     ck.note(desc, nontrivial=(depth >= 2 and (aniso or padded or composite)), klass=fam)
 
-    slow = any(isinstance(p, HP) or getattr(p, "brokenlog", False) for p in prod.parts)
+    slow = fam == "sparse" or any(isinstance(p, HP) or getattr(p, "brokenlog", False)
+                                  for p in prod.parts)
     unb_level = int(rng.integers(0, depth + 1))
     seen = set()
 
